@@ -372,7 +372,7 @@ def blackbox_histories(ctx):
     import threading
     from playback.tape_recorder import TapeRecorder
     n = ctx.budget(120, 3000)
-    for mode in ('main', 'thread_per_operation', 'worker_pool'):
+    for mode in ('main', 'thread_per_operation', 'worker_pool', 'forked_worker'):
         for rate in (0.5, 0.2):
             seed = ctx.seed * 1000 + int(rate * 100) + 20240917
             if mode == 'main' and rate == 0.2:
@@ -404,8 +404,46 @@ def blackbox_histories(ctx):
                     pool = [threading.Thread(target=serve, args=(q,)) for q in qs]
                     for t in pool:
                         t.start()
+                forked = None
+                if mode == 'forked_worker':
+                    # pre-fork server: the recorder is created (and used) in the master, a worker forked from it serves the rest; its
+                    # decisions are the continuation of the seeded stream
+                    import json as _json
+                    import os as _os
+                    split = n // 4
+                    for i in range(split):
+                        one(i)
+                    rfd, wfd = _os.pipe()
+                    pid = _os.fork()
+                    if pid == 0:
+                        try:
+                            _os.close(rfd)
+                            for i in range(split, n):
+                                one(i)
+                            _os.write(wfd, _json.dumps([out.get(i) for i in range(split, n)]).encode())
+                        finally:
+                            _os._exit(0)
+                    _os.close(wfd)
+                    buf = b''
+                    while True:
+                        chunk = _os.read(rfd, 65536)
+                        if not chunk:
+                            break
+                        buf += chunk
+                    _os.close(rfd)
+                    _os.waitpid(pid, 0)
+                    try:
+                        forked = _json.loads(buf.decode())
+                    except ValueError:
+                        ctx.inconclusive('the forked worker did not report its decisions')
+                        forked = [None] * (n - split)
+                    for i, v in enumerate(forked):
+                        out[split + i] = v
+                    ctx.count('decisions_made_in_a_forked_worker', len(forked))
                 for i in range(n):
-                    if mode == 'main':
+                    if mode == 'forked_worker':
+                        pass
+                    elif mode == 'main':
                         one(i)
                     elif mode == 'thread_per_operation':
                         t = threading.Thread(target=one, args=(i,))
@@ -429,6 +467,55 @@ def blackbox_histories(ctx):
                 ctx.violation('decisions of a seeded recorder do not follow Random(seed) when operations run on %s' % mode.replace('_', ' '),
                               {'mode': mode, 'rate': rate, 'seed': seed, 'first_difference': i, 'got': got_seq[i], 'expected': exp_seq[i],
                                'kept': got_seq.count('save'), 'of': n})
+
+
+def explicit_scopes(ctx):
+    """The public recording scope opened directly (``with recorder.start_recording(category, {OPERATION_CLASS: cls})``) instead of through
+    the operation decorator: the parameters registered for the class named in the metadata decide, exactly as for decorated operations."""
+    from playback.tape_recorder import TapeRecorder, RecordingParameters
+    from vlib import genclasses
+    from vlib.spies import SpyRandom
+    idx = 0
+    for rate, ignore, forcing, discard, outcome, draw in itertools.product([None, 0, 0.3, 1, 1.7], [False, True], [False, True], [False, True],
+                                                                          ['return', 'raise'], [0.1, 0.9]):
+        if rate in (None, 1, 1.7) and draw != 0.1:
+            continue
+        idx += 1
+        if not ctx.mine(idx):
+            continue
+        with open_box('memory') as box:
+            spy = SpyCassette(box.cassette)
+            rec = TapeRecorder(spy)
+            rec._random = SpyRandom(3)
+            rec._random.script = [draw]
+            rec.enable_recording()
+            cls = genclasses.register(type('Scoped%d' % idx, (object,), {}))
+            if rate is not None or ignore:
+                rec.recording_params(RecordingParameters(sampling_rate=1.0 if rate is None else rate, ignore_enforced_sampling=ignore))(cls)
+            try:
+                with rec.start_recording('Scoped%d' % idx, {TapeRecorder.OPERATION_CLASS: cls}):
+                    rec.record_data('k', idx)
+                    if forcing:
+                        rec.force_sample_recording()
+                    if discard:
+                        rec.discard_recording()
+                    if outcome == 'raise':
+                        raise fr_user_error()
+            except fr_user_error:
+                pass
+            ev = [e[0] for e in spy.log if e[0] in ('create', 'save', 'abort')]
+            got = {('create', 'save'): 'save', ('create', 'abort'): 'abort'}.get(tuple(ev), 'other:' + ','.join(ev))
+            used = rec._random.draws
+            eff_rate = 1.0 if rate is None else rate
+            exp = ref_keep(False, discard, forcing, ignore, eff_rate, used[0] if used else None)
+            row = {'explicit_scope': True, 'rate': rate, 'ignore_forcing': ignore, 'forced': forcing, 'discard': discard, 'outcome': outcome, 'draw': draw}
+            ctx.case(row)
+            ctx.count('explicit_scope_decisions')
+            if got != exp:
+                ctx.violation('decision %r of an explicitly opened recording scope differs from the policy of its class (%r)' % (got, exp), {'row': row, 'draws': used})
+
+
+from vlib.values import UserError as fr_user_error   # noqa
 
 
 def s3_lookups_between_saves(ctx):
@@ -587,6 +674,7 @@ def run(ctx):
     from playback.tape_cassettes.s3.s3_tape_cassette import S3TapeCassette
     env.anchor(S3TapeCassette, '_should_sample')
     table(ctx)
+    explicit_scopes(ctx)
     histories(ctx)
     if ctx.shard == 0:
         leakage(ctx)
@@ -600,4 +688,6 @@ def run(ctx):
 
 
 def replay(ctx, w):
+    if isinstance(w.get('row'), dict) and w['row'].get('explicit_scope'):
+        return explicit_scopes(ctx)
     table(ctx)
